@@ -243,6 +243,39 @@ pub fn run(ctx: &Ctx) -> (Stats, Report) {
     st.exhaustive_sections.push("all dates x 12 units on Date; all dates x 15 critical times x 12 units on Timestamp and OracleDate".into());
     st.section("all_dates_x_units", &mut mark);
 
+    // call-order histories: the same calls in descending and in scrambled date order, all units
+    // interleaved on one thread, so that anything a call leaves behind meets a later call on an
+    // earlier / unrelated date and a different unit
+    {
+        let all: Vec<std::sync::Arc<Bounds>> = UNITS.iter().map(|u| std::sync::Arc::new(bounds(*u))).collect();
+        let aref = &all;
+        let chunk: u64 = 1 << 12;
+        let s = par_sweep(c.len() as u64, chunk, |range, st| {
+            let (lo, len) = (range.start, range.end - range.start);
+            for pass in 0..2u64 {
+                for k in 0..len {
+                    // pass 0: descending; pass 1: scrambled (2731 is odd and coprime to every chunk length used)
+                    let i = if pass == 0 { range.end - 1 - k } else { lo + (k * 2731 + 17) % len };
+                    let r = &c.rows[i as usize];
+                    for (ui, u) in UNITS.iter().enumerate() {
+                        let which = ((i + ui as u64 + pass) % 3) as u8;
+                        let t = if which == 0 { 0 } else { [0i64, 43_200_000_000, 86_399_000_000][(i % 3) as usize] };
+                        st.evaluations += 1;
+                        st.nontrivial_enum += 1;
+                        if let Err(m) = check_trunc(which, *u, &aref[ui], r.n, t) {
+                            st.fail(i, Case::new(P, "trunc", vec![which as i128, u.index() as i128, r.n as i128, t as i128], vec![]), format!("{m} [in a {} sweep with the units interleaved: depends on earlier calls if the single call passes]", if pass == 0 { "descending" } else { "scrambled" }));
+                            return;
+                        }
+                    }
+                }
+            }
+        });
+        st.merge(s);
+        st.class_n("call-order-history-passes", 2);
+    }
+    st.exhaustive_sections.push("all dates again in descending and in scrambled order, 12 units interleaved over the three types".into());
+    st.section("call_order_histories", &mut mark);
+
     // every second of sampled days (hour / minute boundaries and everything else)
     let days = sampled_days(seed, if ctx.thorough { 400 } else { 12 });
     for u in UNITS {
